@@ -12,6 +12,12 @@ from p_graph import tokenize_gfa
 from p_conv import synth_stable
 
 
+class CaseSetupFailed(Exception):
+    def __init__(self, what, replay):
+        Exception.__init__(self, what)
+        self.what, self.replay = what, replay
+
+
 class Case:
     """one generated (graph, GAF) pair on disk, indexed by the real tool"""
 
@@ -43,8 +49,13 @@ class Case:
             u = os.path.join(tmp, "u.gaf")
             gen.write_text(u, "".join(l + "\n" for l in lines))
             o = os.path.join(tmp, "u.out")
-            tool("view", allow_stdout=True, gaf_path=u, gfa=self.gfa, output=o, format="stable")
-            conv = open(o).read().splitlines()
+            try:
+                with watchdog(120):
+                    tool("view", allow_stdout=True, gaf_path=u, gfa=self.gfa, output=o, format="stable")
+                conv = open(o).read().splitlines()
+            except BaseException as e:  # noqa: the tool refusing / failing on a valid whole-file conversion is a finding of the caller
+                raise CaseSetupFailed("view --format stable of a valid unstable GAF (whole file) failed: %s: %s" % (type(e).__name__, str(e)[:200]),
+                                      {"gfa": self.gtext, "gaf": lines[:60]})
             lines = []
             for k, l in enumerate(conv):
                 lines.append(l if rng.random() < 0.6 else synth_stable(rng, self.g, k).replace("syn%d" % k, "q%d" % k))
@@ -136,7 +147,13 @@ def index_to_ordinals(case, ind):
 def c03(ck, tmp, n):
     rng = ck.rng
     for it in range(n):
-        case = Case(rng, tmp, stable=rng.random() < 0.5, bgzf=rng.random() < 0.5, big=it == 4, many=it == 6)
+        try:
+            case = Case(rng, tmp, stable=rng.random() < 0.5, bgzf=rng.random() < 0.5, big=it == 4, many=it == 6)
+        except CaseSetupFailed as e:
+            ck.violation(e.what, e.replay)
+            if len(ck.violations) > 20:
+                break
+            continue
         ind, err = case.index()
         impl, problems = (None, [err]) if ind is None else index_to_ordinals(case, ind)
         r = ck.driver([dict(case.base(), op="view.index", impl_index=impl)])[0]
@@ -176,7 +193,13 @@ def lines_to_ordinals(case, out):
 def c04_c05(ck, prop, tmp, n):
     rng = ck.rng
     for it in range(n):
-        case = Case(rng, tmp, stable=rng.random() < 0.4, bgzf=rng.random() < 0.4, big=it in (3, n // 2), many=it == 5)
+        try:
+            case = Case(rng, tmp, stable=rng.random() < 0.4, bgzf=rng.random() < 0.4, big=it in (3, n // 2), many=it == 5)
+        except CaseSetupFailed as e:
+            ck.violation(e.what, e.replay)
+            if len(ck.violations) > 20:
+                break
+            continue
         if case.big:
             ck.count("big-contig")
         ind, err = case.index()
